@@ -19,7 +19,7 @@ class P(b1.Plugin):
     def make(self, rng, i):
         self.rng = rng
         kind = rng.choice(["struct", "enum", "enum"])
-        td = gen.make_skeleton(rng, i, kind, ["L", "L", "S", "F"])
+        td = gen.make_skeleton(rng, i, kind, ["L", "L", "S", "F", "PD"])
         with_eq = rng.random() < 0.35
         td.with_eq = with_eq
         metas = ["Hash"] + (["PartialEq"] if with_eq else [])
@@ -29,14 +29,14 @@ class P(b1.Plugin):
             for f in v.fields:
                 r = rng.random()
                 req = {"ignore": r < 0.3, "method": None}
-                if 0.3 <= r < 0.55 and not with_eq:
+                if 0.3 <= r < 0.55 and not with_eq and f.ty in gen.METHOD_LEAVES:
                     req["method"] = gen.METHOD_LEAVES.index(f.ty)
                 if not req["ignore"] and req["method"] is None and "Hash" not in gen.LEAVES[f.ty]["traits"]:
                     if with_eq:
                         req["ignore"] = True
                     else:
                         req["method"] = gen.METHOD_LEAVES.index(f.ty)
-                if req["ignore"] and rng.random() < 0.2:
+                if req["ignore"] and f.ty in gen.METHOD_LEAVES and rng.random() < 0.2:
                     req["method"] = gen.METHOD_LEAVES.index(f.ty)      # both: a field switched off that still names its method
                 f.req["Hash"] = req
                 f.metas = gen.render_field_cmp_attr(rng, "Hash", req, "hash_m_%s" % f.ty)
